@@ -29,7 +29,7 @@ Qed.
 
 (* what may follow the indented text *)
 Definition tail_ok (w : nat) (tail : list str) : Prop :=
-  tail = [] \/ exists l2 more, tail = NL :: l2 :: more /\ parse_continuation l2 (Z.of_nat w) = None /\ parse_marker l2 = None.
+  tail = [] \/ tail = [NL] \/ exists l2 more, tail = NL :: l2 :: more /\ parse_continuation l2 (Z.of_nat w) = None /\ parse_marker l2 = None.
 
 Section Item.
   Variable types : list block_kind.
@@ -43,7 +43,9 @@ Section Item.
   Proof.
     induction ls as [|l ls IH]; intros tail buf taken nl Hok Ht Hnl.
     - cbn [map app fold_left rev length] in *. subst nl. rewrite Nat.add_0_r.
-      destruct Ht as [->|(l2 & more & -> & Hc & Hm)]; [reflexivity|].
+      destruct Ht as [->|[->|(l2 & more & -> & Hc & Hm)]]; [reflexivity| |].
+      { cbn [item_loop]. unfold NL. rewrite parse_continuation_blank. cbn [str_eqb Z.eqb Pos.eqb item_loop andb skipn].
+        replace (S taken - 1)%nat with taken by lia. reflexivity. }
       cbn [item_loop]. unfold NL. rewrite parse_continuation_blank. cbn [str_eqb Z.eqb Pos.eqb item_loop andb]. rewrite Hc.
       replace (S taken - 1)%nat with taken by lia.
       destruct (item_interrupt types (l2 :: more)); [cbn [skipn]; reflexivity|].
@@ -56,6 +58,29 @@ Section Item.
         rewrite parse_continuation_line by (try assumption; lia).
         replace (w + k - Z.to_nat (Z.of_nat w))%nat with k by lia.
         rewrite line_not_nl by exact Hc. cbn [fold_left next_nl] in Hnl. rewrite (IH tail _ _ _ Hls Ht Hnl).
+        cbn [map render_line rev length]. rewrite <- app_assoc. cbn [app]. f_equal. f_equal. lia.
+  Qed.
+
+  (* ... and when the next item of the same list follows after a blank line: the blank line is the item's, the marker is handed on *)
+  Lemma item_loop_embedded_next : forall ls l2 more mk2 buf taken nl,
+    Forall sline_ok ls -> fold_left next_nl ls nl = O ->
+    parse_continuation l2 (Z.of_nat w) = None -> item_interrupt types (l2 :: more) = false ->
+    parse_marker l2 = Some mk2 -> same_marker_type leader (match mk2 with (_, _, other, _) => other end) = true ->
+    item_loop types leader (map (embed_line w) ls ++ NL :: l2 :: more) (Z.of_nat w) buf taken nl =
+    (rev (NL :: rev (map render_line ls) ++ buf), S (taken + length ls), Some mk2).
+  Proof.
+    induction ls as [|l ls IH]; intros l2 more mk2 buf taken nl Hok Hnl Hc Hi Hm Hs.
+    - cbn [map app fold_left rev length] in *. subst nl. rewrite Nat.add_0_r.
+      cbn [item_loop]. unfold NL. rewrite parse_continuation_blank. cbn [str_eqb Z.eqb Pos.eqb item_loop andb]. rewrite Hc, Hi, Hm.
+      destruct mk2 as [[[i p] other] ct]. rewrite Hs. reflexivity.
+    - inversion Hok as [|? ? Hl Hls]; subst. cbn [map app item_loop].
+      destruct l as [|k c body]; cbn [embed_line].
+      + rewrite parse_continuation_blank. cbn [fold_left next_nl] in Hnl. rewrite (IH l2 more mk2 _ _ _ Hls Hnl Hc Hi Hm Hs).
+        cbn [str_eqb Z.eqb Pos.eqb map render_line rev length]. rewrite <- app_assoc. cbn [app]. f_equal. f_equal. lia.
+      + destruct Hl as [Hc0 Hb].
+        rewrite parse_continuation_line by (try assumption; lia).
+        replace (w + k - Z.to_nat (Z.of_nat w))%nat with k by lia.
+        rewrite line_not_nl by exact Hc0. cbn [fold_left next_nl] in Hnl. rewrite (IH l2 more mk2 _ _ _ Hls Hnl Hc Hi Hm Hs).
         cbn [map render_line rev length]. rewrite <- app_assoc. cbn [app]. f_equal. f_equal. lia.
   Qed.
 End Item.
@@ -98,6 +123,29 @@ Section Law.
     change (c0 :: body0 ++ [10]) with (render_line (SLine 0 c0 body0)).
     change (render_line (SLine 0 c0 body0) :: map render_line rest) with text.
     destruct (rec text ln st) as [[es lo] st']. reflexivity.
+  Qed.
+
+  (* the item when the next item of the list follows after a blank line *)
+  Lemma read_item_next l2 more mk2 ln st :
+    parse_continuation l2 (Z.of_nat w) = None -> item_interrupt types (l2 :: more) = false ->
+    parse_marker l2 = Some mk2 -> same_marker_type ms (match mk2 with (_, _, other, _) => other end) = true ->
+    read_item types rec (embedded ++ NL :: l2 :: more) ln None st =
+    let '(es, lo, st') := rec (text ++ [NL]) ln st in
+    (PItem ln es lo 0 (Z.of_nat w) ms, S (S (length rest)), Some mk2, st').
+  Proof.
+    intros Hc Hi Hm Hs.
+    unfold read_item, embedded, first_line, ms. cbn [app].
+    rewrite (parse_marker_line mk pad c0 body0 Hmk Hpad Hc0).
+    assert (Nb : is_blank (c0 :: body0 ++ [10]) = false).
+    { apply not_blank_first. unfold nonspace in Hc0. apply negb_true_iff in Hc0. exact Hc0. }
+    rewrite Nb.
+    assert (Ew : slen (marker_str mk) + Z.of_nat pad = Z.of_nat w) by (unfold w, ms, slen; lia).
+    assert (Fr : fold_left next_nl rest 0%nat = 0%nat) by (eapply fold_rest; eassumption).
+    rewrite Ew. rewrite (item_loop_embedded_next types (marker_str mk) w rest l2 more mk2 _ _ _ Hrest Fr Hc Hi Hm Hs).
+    assert (Eb : rev (NL :: rev (map render_line rest) ++ [c0 :: body0 ++ [10]]) = text ++ [NL]).
+    { cbn [rev]. rewrite rev_app_distr, rev_involutive. reflexivity. }
+    match goal with |- context [rec ?x ln st] => replace x with (text ++ [NL]) by (symmetry; exact Eb) end.
+    destruct (rec (text ++ [NL]) ln st) as [[es lo] st']. replace (1 + length rest)%nat with (S (length rest)) by reflexivity. reflexivity.
   Qed.
 
   Lemma start_read_list_tail ln st :
